@@ -143,6 +143,7 @@ def evaluate(ctx, name, cfg, script, res, cases, impl_outs, drain):
             ctx.notes.setdefault("unexpected_exceptions", []).append(f"{ex[0]}: {ex[1]!r}")
     cases.append(pu.obs.lines)
     impl_outs.append(pu.obs.outs)
+    fc.note_hyp(ctx, pu.obs)
     nontrivial = so.at_limit > 0 and (so.retransmissions > 0 or res["unblocked"])
     ctx.count((name, repr(cfg), repr(script)), nontrivial)
     for k in ("frames_checked", "retransmissions", "at_limit"):
@@ -151,146 +152,185 @@ def evaluate(ctx, name, cfg, script, res, cases, impl_outs, drain):
         ctx.notes["unblocked_cases"] = ctx.notes.get("unblocked_cases", 0) + 1
 
 
-def two_real(ctx, r, n, cases, impl_outs):
-    """both endpoints real, adversarial network: each sender is checked by its
-    own SendOracle; a real (C06-compliant) sender must never be accused by the
-    real receiver"""
+def gen_two_real(r):
+    n_act = r.randrange(20, 120)
+    acts = []
+    for _ in range(n_act):
+        x = r.random()
+        if x < 0.3:
+            side = r.choice(["client", "server"])
+            ids = [0, 4, 8, 2, 1, 5, 3] if side == "client" else [1, 5, 9, 3, 0, 4, 2]
+            acts.append(("send", side, r.choice(ids), r.choice([0, 1, 2, 7, 30, 200]), r.random() < 0.2))
+        elif x < 0.35:
+            acts.append(("reset", r.choice(["client", "server"]), r.choice([0, 4, 1, 5, 2, 3])))
+        else:
+            acts.append(("step",))
+    return {"two_real": True, "seed": r.randrange(1 << 30),
+            "client_options": {"max_data": r.choice([1, 5, 50, 1000]), "max_stream_data": r.choice([1, 4, 30, 1000])},
+            "server_options": {"max_data": r.choice([1, 5, 50, 1000]), "max_stream_data": r.choice([1, 4, 30, 1000])},
+            "client_streams": [r.choice([1, 2, 128]), r.choice([0, 1, 128])],
+            "server_streams": [r.choice([1, 2, 128]), r.choice([0, 1, 128])], "acts": acts}
+
+
+def exec_two_real(p):
+    """both endpoints real, adversarial network (deterministic given `p`): each
+    sender is checked by its own SendOracle; a real (C06-compliant) sender must
+    never be accused by the real receiver.  Returns (problems, observers, oracles)."""
     from harness import sim as simmod
     from harness.impl_flow import FlowObserver, PacketLog, SendOracle, fast_certs, limits_of, set_stream_count_limits
     fast_certs()
+    log = PacketLog()
+    s = simmod.Sim(p["seed"], client_options=dict(p["client_options"]), server_options=dict(p["server_options"]), monitors=[log])
+    set_stream_count_limits(s.client.conn, *p["client_streams"])
+    set_stream_count_limits(s.server.conn, *p["server_streams"])
+    tpc, tps = limits_of(s.client.conn), limits_of(s.server.conn)
+    oc, os_ = FlowObserver(s.client.conn, name="client"), FlowObserver(s.server.conn, name="server")
+    orc, ors = SendOracle("client", True, tps), SendOracle("server", False, tpc)
+    log.listeners += [orc, ors]
+    problems = []
+    try:
+        if not s.handshake():
+            return None
+        eps = {"client": s.client, "server": s.server}
+        for a in p["acts"]:
+            a = tuple(a)
+            if a[0] == "send":
+                s.api(eps[a[1]], "send_stream_data", a[2], bytes(a[3]), a[4])
+                s.transmit(eps[a[1]])
+            elif a[0] == "reset":
+                s.api(eps[a[1]], "reset_stream", a[2], 1)
+                s.transmit(eps[a[1]])
+            else:
+                s.adversarial_step(p_drop=0.2, p_dup=0.05)
+        s.fair_phase(max_steps=300, done=lambda: not s.pending and all(
+            c.conn._loss.bytes_in_flight == 0 for c in s.endpoints))
+    finally:
+        s.close_taps()
+    for o, ob in ((orc, oc), (ors, os_)):
+        for q in o.problems[:1]:
+            problems.append((q, {"oracle": "wire-send"}))
+        for q in fc.ledger_problems(ob.outs)[:1]:
+            problems.append((q, {"oracle": "ledger"}))
+    for ep in s.endpoints:
+        ce = ep.conn._close_event
+        if ce is not None and int(ce.error_code) in (3, 4, 6):
+            problems.append((f"{ep.name} accused its real (aioquic) peer: close code {int(ce.error_code)} {ce.reason_phrase!r}",
+                             {"oracle": "real-peer-accused"}))
+    return problems, (oc, os_), (orc, ors)
+
+
+def two_real(ctx, r, n, cases, impl_outs):
     for i in range(n):
-        log = PacketLog()
-        co = {"max_data": r.choice([1, 5, 50, 1000]), "max_stream_data": r.choice([1, 4, 30, 1000])}
-        so = {"max_data": r.choice([1, 5, 50, 1000]), "max_stream_data": r.choice([1, 4, 30, 1000])}
-        seed = r.randrange(1 << 30)
-        s = simmod.Sim(seed, client_options=co, server_options=so, monitors=[log])
-        set_stream_count_limits(s.client.conn, r.choice([1, 2, 128]), r.choice([0, 1, 128]))
-        set_stream_count_limits(s.server.conn, r.choice([1, 2, 128]), r.choice([0, 1, 128]))
-        tpc, tps = limits_of(s.client.conn), limits_of(s.server.conn)
-        oc, os_ = FlowObserver(s.client.conn, name="client"), FlowObserver(s.server.conn, name="server")
-        orc, ors = SendOracle("client", True, tps), SendOracle("server", False, tpc)
-        log.listeners += [orc, ors]
-        acts = []
-        try:
-            if not s.handshake():
-                continue
-            for _ in range(r.randrange(20, 120)):
-                x = r.random()
-                if x < 0.3:
-                    ep = r.choice(s.endpoints)
-                    ids = [0, 4, 8, 2, 1, 5, 3] if ep.is_client else [1, 5, 9, 3, 0, 4, 2]
-                    a = ("send", ep.name, r.choice(ids), r.choice([0, 1, 2, 7, 30, 200]), r.random() < 0.2)
-                    s.api(ep, "send_stream_data", a[2], bytes(a[3]), a[4])
-                    s.transmit(ep)
-                elif x < 0.35:
-                    ep = r.choice(s.endpoints)
-                    a = ("reset", ep.name, r.choice([0, 4, 1, 5, 2, 3]))
-                    s.api(ep, "reset_stream", a[2], 1)
-                    s.transmit(ep)
-                else:
-                    a = ("step",)
-                    s.adversarial_step(p_drop=0.2, p_dup=0.05)
-                acts.append(a)
-            s.fair_phase(max_steps=300, done=lambda: not s.pending and all(
-                c.conn._loss.bytes_in_flight == 0 for c in s.endpoints))
-        finally:
-            s.close_taps()
-        replay = {"two_real": True, "seed": seed, "client_options": co, "server_options": so, "acts": acts}
-        for o, ob in ((orc, oc), (ors, os_)):
-            for p in o.problems[:1]:
-                ctx.witness(p, replay, {"oracle": "wire-send"})
-            for p in fc.ledger_problems(ob.outs)[:1]:
-                ctx.witness(p, replay, {"oracle": "ledger"})
+        p = gen_two_real(r)
+        res = exec_two_real(p)
+        if res is None:
+            continue
+        problems, obs, oracles = res
+        for what, sig in problems:
+            ctx.witness(what, p, sig)
+        for o, ob in zip(oracles, obs):
+            fc.note_hyp(ctx, ob)
             cases.append(ob.lines)
             impl_outs.append(ob.outs)
-            ctx.count(("two-real", seed, ob.name), o.at_limit > 0 and o.retransmissions > 0)
+            ctx.count(("two-real", p["seed"], ob.name), o.at_limit > 0 and o.retransmissions > 0)
             for k in ("frames_checked", "retransmissions", "at_limit"):
                 ctx.notes[k] = ctx.notes.get(k, 0) + getattr(o, k)
-        for ep in s.endpoints:
-            ce = ep.conn._close_event
-            if ce is not None and int(ce.error_code) in (3, 4, 6):
-                ctx.witness(f"{ep.name} accused its real (aioquic) peer: close code {int(ce.error_code)} {ce.reason_phrase!r}",
-                            replay, {"oracle": "real-peer-accused"})
+
+
+def gen_zero_rtt(r):
+    l1 = {"max_data": r.choice([0, 1, 3, 10]), "max_stream_data": r.choice([0, 1, 2, 5])}
+    l2 = {"max_data": l1["max_data"] + r.choice([0, 1, 5]), "max_stream_data": l1["max_stream_data"] + r.choice([0, 1, 4])}
+    sc1 = [r.choice([0, 1, 2]), r.choice([0, 1])]
+    sc2 = [sc1[0] + r.choice([0, 1]), sc1[1] + r.choice([0, 1])]
+    early = [("send", r.choice([0, 4, 2, 8]), r.choice([0, 1, 2, 3, 7]), r.random() < 0.3) for _ in range(r.randrange(1, 6))]
+    acts = []
+    for _ in range(r.randrange(10, 60)):
+        if r.random() < 0.25:
+            acts.append(("send", r.choice([0, 4, 2, 8, 12]), r.choice([0, 1, 2, 9]), r.random() < 0.2))
+        else:
+            acts.append(("step",))
+    return {"zero_rtt": True, "seed": r.randrange(1 << 30), "l1": l1, "l2": l2, "sc1": sc1, "sc2": sc2,
+            "early": early, "acts": acts}
+
+
+def exec_zero_rtt(p):
+    """0-RTT with remembered limits (deterministic given `p`): a first connection
+    obtains a session ticket (the server's limits L1 are remembered with it); on
+    the second connection the client writes before the handshake completes, i.e.
+    under the remembered limits, then receives the real transport parameters
+    L2 >= L1.  Returns (problems, observer, oracle, early_frames) or None."""
+    from harness import sim as simmod
+    from harness.impl_flow import FlowObserver, PacketLog, SendOracle, fast_certs, limits_of, set_stream_count_limits
+    fast_certs()
+    l1, l2, sc1, sc2, seed = p["l1"], p["l2"], p["sc1"], p["sc2"], p["seed"]
+    tickets = {}
+    saved = []
+    s1 = simmod.Sim(seed, client_options={}, server_options=dict(l1))
+    set_stream_count_limits(s1.server.conn, *sc1)
+    s1.client.conn._session_ticket_handler = saved.append
+    s1.server.conn._session_ticket_handler = lambda t: tickets.__setitem__(t.ticket, t)
+    try:
+        ok = s1.handshake() and s1.fair_phase(max_steps=60, done=lambda: bool(saved))
+    finally:
+        s1.close_taps()
+    if not ok or not saved:
+        return None
+    log = PacketLog()
+    s = simmod.Sim(seed + 1, client_options={"session_ticket": saved[-1]}, server_options=dict(l2), monitors=[log])
+    set_stream_count_limits(s.server.conn, *sc2)
+    s.server.conn._session_ticket_fetcher = lambda label: tickets.pop(label, None)
+    remembered = {"max_data": l1["max_data"], "bidi_local": l1["max_stream_data"], "bidi_remote": l1["max_stream_data"],
+                  "uni": l1["max_stream_data"], "streams_bidi": sc1[0], "streams_uni": sc1[1]}
+    oc = FlowObserver(s.client.conn, name="client")
+    orc = SendOracle("client", True, remembered)
+    log.listeners.append(orc)
+    early = 0
+    try:
+        s.api(s.client, "connect", simmod.SERVER_ADDR, now=s.now)
+        for a in p["early"]:
+            s.api(s.client, "send_stream_data", a[1], bytes(a[2]), a[3])
+        s.transmit(s.client)
+        early = sum(1 for ep, pn, fr in log.built.get("client", []) if ep == "ZERO_RTT"
+                    for f in fr if f["name"] == "STREAM")
+        # from here on the real parameters L2 (>= L1) are in force as soon as they arrive
+        real = limits_of(s.server.conn)
+        for k in orc.tp:
+            orc.tp[k] = max(orc.tp[k], real[k])
+        orc.max_data = max(orc.max_data, real["max_data"])
+        orc.max_streams = {False: max(orc.max_streams[False], real["streams_bidi"]),
+                           True: max(orc.max_streams[True], real["streams_uni"])}
+        for a in p["acts"]:
+            if a[0] == "send":
+                s.api(s.client, "send_stream_data", a[1], bytes(a[2]), a[3])
+                s.transmit(s.client)
+            else:
+                s.adversarial_step(p_drop=0.15, p_dup=0.05)
+        s.fair_phase(max_steps=300, done=lambda: not s.pending and s.client.conn._loss.bytes_in_flight == 0)
+    finally:
+        s.close_taps()
+    problems = [(q, {"oracle": "wire-send-0rtt"}) for q in orc.problems[:1]]
+    problems += [(q, {"oracle": "ledger"}) for q in fc.ledger_problems(oc.outs)[:1]]
+    ce = s.server.conn._close_event
+    if ce is not None and int(ce.error_code) in (3, 4, 6):
+        problems.append((f"server accused the 0-RTT client: close code {int(ce.error_code)} {ce.reason_phrase!r}",
+                         {"oracle": "real-peer-accused"}))
+    return problems, oc, orc, early
 
 
 def zero_rtt(ctx, r, n, cases, impl_outs):
-    """0-RTT with remembered limits: a first connection obtains a session ticket
-    (the server's limits L1 are remembered with it); on the second connection
-    the client writes before the handshake completes, i.e. under the remembered
-    limits, then receives the real transport parameters L2 >= L1"""
-    from harness import sim as simmod
-    from harness.impl_flow import FlowObserver, PacketLog, SendOracle, fast_certs, limits_of, set_stream_count_limits
-    fast_certs()
     for i in range(n):
-        l1 = {"max_data": r.choice([0, 1, 3, 10]), "max_stream_data": r.choice([0, 1, 2, 5])}
-        l2 = {"max_data": l1["max_data"] + r.choice([0, 1, 5]), "max_stream_data": l1["max_stream_data"] + r.choice([0, 1, 4])}
-        sc1 = (r.choice([0, 1, 2]), r.choice([0, 1]))
-        sc2 = (sc1[0] + r.choice([0, 1]), sc1[1] + r.choice([0, 1]))
-        seed = r.randrange(1 << 30)
-        tickets = {}
-        saved = []
-        s1 = simmod.Sim(seed, client_options={}, server_options=l1)
-        set_stream_count_limits(s1.server.conn, *sc1)
-        s1.client.conn._session_ticket_handler = saved.append
-        s1.server.conn._session_ticket_handler = lambda t: tickets.__setitem__(t.ticket, t)
-        try:
-            ok = s1.handshake() and s1.fair_phase(max_steps=60, done=lambda: bool(saved))
-        finally:
-            s1.close_taps()
-        if not ok or not saved:
-            ctx.broken.append({"kind": "harness", "error": "no session ticket obtained", "seed": seed})
+        p = gen_zero_rtt(r)
+        res = exec_zero_rtt(p)
+        if res is None:
+            ctx.broken.append({"kind": "harness", "error": "no session ticket obtained", "seed": p["seed"]})
             continue
-        log = PacketLog()
-        s = simmod.Sim(seed + 1, client_options={"session_ticket": saved[-1]}, server_options=l2, monitors=[log])
-        set_stream_count_limits(s.server.conn, *sc2)
-        s.server.conn._session_ticket_fetcher = lambda label: tickets.pop(label, None)
-        remembered = {"max_data": l1["max_data"], "bidi_local": l1["max_stream_data"], "bidi_remote": l1["max_stream_data"],
-                      "uni": l1["max_stream_data"], "streams_bidi": sc1[0], "streams_uni": sc1[1]}
-        oc = FlowObserver(s.client.conn, name="client")
-        orc = SendOracle("client", True, remembered)
-        log.listeners.append(orc)
-        acts = []
-        early = 0
-        try:
-            s.api(s.client, "connect", simmod.SERVER_ADDR, now=s.now)
-            for _ in range(r.randrange(1, 6)):
-                a = ("send", r.choice([0, 4, 2, 8]), r.choice([0, 1, 2, 3, 7]), r.random() < 0.3)
-                s.api(s.client, "send_stream_data", a[1], bytes(a[2]), a[3])
-                acts.append(a)
-            s.transmit(s.client)
-            early = sum(1 for ep, pn, fr in log.built.get("client", []) if ep == "ZERO_RTT"
-                        for f in fr if f["name"] == "STREAM")
-            # from here on the real parameters L2 (>= L1) are in force as soon as they arrive
-            real = limits_of(s.server.conn)
-            for k in orc.tp:
-                orc.tp[k] = max(orc.tp[k], real[k])
-            orc.max_data = max(orc.max_data, real["max_data"])
-            orc.max_streams = {False: max(orc.max_streams[False], real["streams_bidi"]),
-                               True: max(orc.max_streams[True], real["streams_uni"])}
-            for _ in range(r.randrange(10, 60)):
-                if r.random() < 0.25:
-                    a = ("send", r.choice([0, 4, 2, 8, 12]), r.choice([0, 1, 2, 9]), r.random() < 0.2)
-                    s.api(s.client, "send_stream_data", a[1], bytes(a[2]), a[3])
-                    s.transmit(s.client)
-                else:
-                    a = ("step",)
-                    s.adversarial_step(p_drop=0.15, p_dup=0.05)
-                acts.append(a)
-            s.fair_phase(max_steps=300, done=lambda: not s.pending and s.client.conn._loss.bytes_in_flight == 0)
-        finally:
-            s.close_taps()
-        replay = {"zero_rtt": True, "seed": seed, "l1": l1, "l2": l2, "sc1": sc1, "sc2": sc2, "acts": acts}
-        for p in orc.problems[:1]:
-            ctx.witness(p, replay, {"oracle": "wire-send-0rtt"})
-        for p in fc.ledger_problems(oc.outs)[:1]:
-            ctx.witness(p, replay, {"oracle": "ledger"})
-        ce = s.server.conn._close_event
-        if ce is not None and int(ce.error_code) in (3, 4, 6):
-            ctx.witness(f"server accused the 0-RTT client: close code {int(ce.error_code)} {ce.reason_phrase!r}", replay,
-                        {"oracle": "real-peer-accused"})
+        problems, oc, orc, early = res
+        for what, sig in problems:
+            ctx.witness(what, p, sig)
         cases.append(oc.lines)
         impl_outs.append(oc.outs)
-        ctx.count(("0rtt", seed), early > 0)
+        fc.note_hyp(ctx, oc)
+        ctx.count(("0rtt", p["seed"]), early > 0)
         ctx.notes["zero_rtt_stream_frames"] = ctx.notes.get("zero_rtt_stream_frames", 0) + early
         for k in ("frames_checked", "retransmissions", "at_limit"):
             ctx.notes[k] = ctx.notes.get(k, 0) + getattr(orc, k)
@@ -315,7 +355,8 @@ def main(tier):
         "limits received in MAX_* frames are monotone by construction (the handlers take the max); transport parameters replacing "
         "the values remembered for 0-RTT are NOT compared by the code: conn_limit/stream_limit assume the peer does not reduce them "
         "(RFC 9000 section 7.4.1 obliges the server); see AQ.Props.C06.tp_reduction_counterexample",
-        "delivery reports name frames emitted earlier (guaranteed by recovery, C08)",
+        "delivery reports name frames emitted earlier for that stream and not yet reported (GWFRun; guaranteed by recovery, C08; "
+        "validated on every real trace of this run: notes.delivery_reports_checked)",
     ]
     thorough = tier == "thorough"
     r = rng.make("c06")
@@ -377,21 +418,31 @@ def main(tier):
 
 
 def replay(path):
+    """re-execute the failing input of a replay file against the current tree"""
     import json
     tree.activate()
     d = json.load(open(path))
+    if d.get("kind") != "impl-witness":
+        print("no longer failing: the file records a broken proof/correspondence, not a failing input; rerun ./check C06")
+        return 0
     rp = d["replay"]
     if rp.get("two_real"):
-        print("two-real replays are re-derived from the seed; rerun ./check C06")
+        res = exec_two_real(rp)
+        probs = [] if res is None else [w for w, _ in res[0]]
+    elif rp.get("zero_rtt"):
+        res = exec_zero_rtt(rp)
+        probs = [] if res is None else [w for w, _ in res[0]]
+    else:
+        script = [tuple(a) for a in rp["script"]]
+        cfg = rp["cfg"]
+        for key in ("p_streams", "e_streams"):
+            if cfg.get(key):
+                cfg[key] = tuple(cfg[key])
+        res = fc.run_puppet(cfg, script, drain=rp.get("drain", False))
+        pu = res["pu"]
+        probs = pu.send_oracle.problems + fc.ledger_problems(pu.obs.outs) + res["progress"]
+    if probs:
+        print("still failing: " + probs[0])
         return 1
-    script = [tuple(a) for a in rp["script"]]
-    cfg = rp["cfg"]
-    for key in ("p_streams", "e_streams"):
-        if cfg.get(key):
-            cfg[key] = tuple(cfg[key])
-    res = fc.run_puppet(cfg, script, drain=rp.get("drain", False))
-    pu = res["pu"]
-    probs = pu.send_oracle.problems + fc.ledger_problems(pu.obs.outs) + res["progress"]
-    for p in probs:
-        print("VIOLATION-DETAIL", p)
-    return 1 if probs else 0
+    print("no longer failing")
+    return 0
